@@ -452,6 +452,127 @@ theorem run_terminates (o : Opts) (hmu : 0 < mu o) : ∀ (l : List Bool) (s : St
       rw [this] at hp
       linarith
 
+/-! ### accepted thetas, linear-model bookkeeping -/
+
+/-- thetas of the accepted solves of a log, newest first -/
+def accs (log : List Solve) : List Rat := (log.filter (·.ok)).map (·.theta)
+
+theorem accs_cons (e : Solve) (t : List Solve) :
+    accs (e :: t) = if e.ok then e.theta :: accs t else accs t := by
+  unfold accs
+  cases h : e.ok <;> simp [h]
+
+theorem lastAcc_eq_head (log : List Solve) : lastAcc log = (accs log).head? := by
+  induction log with
+  | nil => rfl
+  | cons e t ih =>
+    rw [lastAcc_cons, accs_cons]
+    cases e.ok <;> simp [ih]
+
+/-- accepted thetas strictly increase in time (the newest-first list is strictly decreasing) -/
+theorem LogOK.accs_decreasing {o : Opts} : ∀ {log : List Solve}, LogOK o log →
+    (accs log).Pairwise (· > ·)
+  | [], _ => by simp [accs]
+  | e :: t, h => by
+    have ih := LogOK.accs_decreasing h.2
+    rw [accs_cons]
+    cases hok : e.ok
+    · simpa using ih
+    · simp only [if_true]
+      refine List.pairwise_cons.2 ⟨?_, ih⟩
+      intro a ha
+      -- all earlier accepted thetas are ≤ the last accepted one, which is < e.theta
+      have he := h.1
+      cases t with
+      | nil => simp [accs] at ha
+      | cons p t' =>
+        have hpos := he.2.2.1
+        obtain ⟨_, _, _, _, ⟨b, hb, _, hth, _⟩, _⟩ := he
+        rw [lastAcc_eq_head] at hb
+        cases hacc : accs (p :: t') with
+        | nil => rw [hacc] at ha; cases ha
+        | cons c cs =>
+          rw [hacc] at hb ha ih
+          simp only [List.head?_cons, Option.some.injEq] at hb
+          subst hb
+          rcases List.mem_cons.1 ha with rfl | ha'
+          · rw [hth]; linarith
+          · have := (List.pairwise_cons.1 ih).1 a ha'
+            rw [hth]; linarith
+
+/-- number of accepted solves at theta = 0 -/
+def zeroAcc (log : List Solve) : Nat := (log.filter (fun e => e.ok && decide (e.theta = 0))).length
+
+theorem zeroAcc_cons (e : Solve) (t : List Solve) :
+    zeroAcc (e :: t) = (if e.ok = true ∧ e.theta = 0 then 1 else 0) + zeroAcc t := by
+  unfold zeroAcc
+  by_cases h1 : e.ok = true <;> by_cases h2 : e.theta = 0 <;> (simp [h1, h2]; try omega)
+
+/-- bookkeeping of the `theta == 0.0` block: `cleared` counts the accepted solves at theta = 0 and
+    the linear flags are untouched exactly while that count is 0 (no invariant needed) -/
+theorem step_cleared (o : Opts) (s : St) (ok : Bool)
+    (h : s.cleared = zeroAcc s.solves ∧ (s.linear = true ↔ s.cleared = 0)) :
+    (step o s ok).1.cleared = zeroAcc (step o s ok).1.solves ∧
+      ((step o s ok).1.linear = true ↔ (step o s ok).1.cleared = 0) := by
+  rw [step_solves, zeroAcc_cons]
+  have key : ∀ s' : St, s'.cleared = s.cleared → s'.linear = s.linear →
+      ((mark s').cleared = (if s'.theta = 0 then 1 else 0) + s.cleared) ∧
+      ((mark s').linear = true ↔ (mark s').cleared = 0) := by
+    intro s' hc hl
+    by_cases ht : s'.theta = 0
+    · have hm : mark s' = { s' with linear := false, cleared := s'.cleared + 1 } := by
+        unfold mark; rw [if_pos ht]
+      rw [hm, if_pos ht]
+      refine ⟨by simp only; omega, ?_⟩
+      constructor
+      · intro hc'; cases hc'
+      · intro hc'; simp only at hc'; omega
+    · have hm : mark s' = s' := by unfold mark; rw [if_neg ht]
+      rw [hm, if_neg ht, hc, hl]; exact ⟨by omega, h.2⟩
+  cases ok
+  · simp only [Bool.false_eq_true, false_and, if_false, Nat.zero_add]
+    by_cases h0 : s.theta = o.thetaStart
+    · rw [step_false_first h0]; exact h
+    · by_cases hd : s.delta / 2 < o.deltaMin
+      · rw [step_false_min h0 hd]; exact h
+      · rw [step_false_cont h0 hd]
+        have e1 : (advance (stepBack (push o s false))).cleared = s.cleared := by
+          unfold advance; split <;> rfl
+        have e2 : (advance (stepBack (push o s false))).linear = s.linear := by
+          unfold advance; split <;> rfl
+        rw [e1, e2]; exact h
+  · simp only [true_and]
+    have hk := key { push o s true with acc := some (push o s true).theta } rfl rfl
+    simp only [push_theta] at hk
+    by_cases h1 : 1 ≤ s.theta
+    · rw [step_true_ge h1]
+      show (mark _).cleared = _ ∧ ((mark _).linear = true ↔ (mark _).cleared = 0)
+      rw [← h.1]; exact hk
+    · rw [step_true_lt (not_le.1 h1)]
+      have e1 : ∀ x : St, (advance x).cleared = x.cleared := by
+        intro x; unfold advance; split <;> rfl
+      have e2 : ∀ x : St, (advance x).linear = x.linear := by
+        intro x; unfold advance; split <;> rfl
+      rw [e1, e2]
+      show (mark _).cleared = _ ∧ ((mark _).linear = true ↔ (mark _).cleared = 0)
+      rw [← h.1]; exact hk
+
+theorem run_cleared (o : Opts) : ∀ (l : List Bool) (s : St),
+    (s.cleared = zeroAcc s.solves ∧ (s.linear = true ↔ s.cleared = 0)) →
+    (run step o s l).1.cleared = zeroAcc (run step o s l).1.solves ∧
+      ((run step o s l).1.linear = true ↔ (run step o s l).1.cleared = 0)
+  | [], s, h => by simpa [run] using h
+  | ok :: rest, s, h => by
+    have hs := step_cleared o s ok h
+    unfold run
+    split
+    · rename_i s1 b heq
+      have h1 : (step o s ok).1 = s1 := by rw [heq]
+      rw [← h1]; exact hs
+    · rename_i s1 heq
+      have h1 : (step o s ok).1 = s1 := by rw [heq]
+      exact run_cleared o rest s1 (h1 ▸ hs)
+
 /-- `optimize` either raises (theta_start > 1) or is the run of the loop from the initial state -/
 theorem optimize_some {o : Opts} {l : List Bool} {s : St} {r : Option Bool}
     (h : optimize o l = some (s, r)) :
